@@ -134,6 +134,10 @@ def indices(rng, n):
                9007199254740992, 18446744073709551616, 99999999999999999999, 100000000000000000000, 7, 10, 0]
         idx = rng.sample(big, min(n, len(big)))
         idx += rng.sample(range(20000, 90000), n - len(idx))
+        if n >= 2 and rng.random() < 0.6:  # neighbours that a float64 / int64 key cannot tell apart
+            x = rng.choice([2 ** 53, 2 ** 63 - 1, 2 ** 64, 10 ** 17, 10 ** 20, 2 ** 53 + 2])
+            if x not in idx[2:] and x + 1 not in idx[2:]:
+                idx[0], idx[1] = x + 1, x
     return idx
 
 
